@@ -216,7 +216,8 @@ def make_case(rnd):
         n = rnd.choice(rules)[0]
         ruleinfo.setdefault(n, {})['params'] = tuple(rnd.choice([('Tp',), ('Tp', 'x'), (7,), ('a b',), ('Tp::Base',), ('Tp::B1::B2', 'y')]))
         if rnd.random() < 0.5:
-            ruleinfo[n]['kwparams'] = {'k': rnd.choice(['v', 3])}
+            # (a keyword parameter may be spelled like a Python keyword: the generated decorator must still be valid Python)
+            ruleinfo[n]['kwparams'] = {rnd.choice(['k', 'k', 'if', 'class', 'k2']): rnd.choice(['v', 3])}
     if rnd.random() < 0.25:
         # an @name rule and keywords
         keywords = rnd.sample(['a', 'b', 'ab', 'c'], 2)
